@@ -415,7 +415,7 @@ func (cfg *Config) replaceElems(repl *syntax.Replace, elems []string) ([]string,
 	// the start or at the end of each element, respectively.
 	// The anchor must be unquoted, and does not apply to ${var//pattern/repl}.
 	anchor := byte(0)
-	if !repl.All && len(repl.Orig.Parts) > 0 && orig != "" && (orig[0] == '#' || orig[0] == '%') {
+	if !repl.All && orig != "" && len(repl.Orig.Parts) > 0 && (orig[0] == '#' || orig[0] == '%') {
 		switch repl.Orig.Parts[0].(type) {
 		case *syntax.Lit, *syntax.ParamExp:
 			anchor, orig = orig[0], orig[1:]
